@@ -7,7 +7,8 @@
   `heapq.heappop` are the transcription of CPython's Lib/heapq.py in AcnModel/Queue.lean (`Heap.heappush` /
   `Heap.heappop` — that transcription stays trusted and is exercised by C11's array-layout correspondence), the entry
   `(event.timestamp, event)` is the model's event, partial operations (`self._queue[0]`, `max` of an empty list,
-  `heappop` of an empty list) are `Except PyErr`, and the `while` loop of `get_current_events` is a recursion on `fuel`.
+  `heappop` of an empty list) are `Except PyErr`, a method that changes the queue returns the queue AS IT IS WHEN IT
+  RAISES together with the error, and the `while` loop of `get_current_events` is a recursion on `fuel`.
 
   Proved here, for EVERY queue state and argument:
     `__len__` = `Queue.len`, `empty` = `Queue.empty`, `add_event` = `Queue.addEvent`, `add_events` = `Queue.addEvents`,
